@@ -71,8 +71,8 @@ type vfC04Dialer struct {
 
 func (d *vfC04Dialer) DialContext(ctx context.Context, _, _ string) (net.Conn, error) { return d.f(ctx) }
 
-func vfC04TcpUpgrader(t *testing.T, priv crypto.PrivKey, rm network.ResourceManager) transport.Upgrader {
-	muxers := []upgrader.StreamMuxer{{ID: yamux.ID, Muxer: yamux.DefaultTransport}}
+func vfC04TcpUpgrader(t *testing.T, priv crypto.PrivKey, rm network.ResourceManager, spy *vfc04.MuxSpy) transport.Upgrader {
+	muxers := []upgrader.StreamMuxer{{ID: yamux.ID, Muxer: spy}}
 	st, err := noise.New(noise.ID, priv, muxers)
 	if err != nil {
 		t.Fatal(err)
@@ -101,7 +101,8 @@ func vfC04TcpScenario(t *testing.T, plan vfC04TcpPlan, tr *vfh.Trace, out *vfC04
 	if err != nil {
 		t.Fatal(err)
 	}
-	uD, uL := vfC04TcpUpgrader(t, vfC04TcpKeys.privD, rmD), vfC04TcpUpgrader(t, vfC04TcpKeys.privL, rmL)
+	spyD, spyL := &vfc04.MuxSpy{Multiplexer: yamux.DefaultTransport}, &vfc04.MuxSpy{Multiplexer: yamux.DefaultTransport}
+	uD, uL := vfC04TcpUpgrader(t, vfC04TcpKeys.privD, rmD, spyD), vfC04TcpUpgrader(t, vfC04TcpKeys.privL, rmL, spyL)
 
 	const lport = 5000
 	fl := vfc04.NewListener(lport)
@@ -221,7 +222,7 @@ wait:
 	wg.Wait()
 	synctest.Wait()
 	if dialed && !accepted {
-		led.End("l1", "listener-closed", "")
+		led.End("l1", "listener-closed", spyL.Stage(l))
 	}
 	for _, c := range fl.Pending() {
 		e := c.(*vfc04.End)
